@@ -453,7 +453,19 @@ fn with_borrowed_guard(guard: TimerGuard<'_>, cx: &mut SwCtx<'_>, toks: &mut Vec
 
 fn run_sw(ops: &[Op], mode: Mode) -> Option<String> {
     let fake = ManuallyAdvancedTimeSource::at_time(UNIX_EPOCH);
-    let mut sw = Stopwatch::new_from_timesource(TimeSource::custom(fake.clone()));
+    // the three constructors: explicit source, `new()` / `default()` under a thread-local override
+    let ts = TimeSource::custom(fake.clone());
+    let mut sw = match mode {
+        Mode::Seq => Stopwatch::new_from_timesource(ts),
+        Mode::Threaded => {
+            let _g = set_time_source(ts);
+            Stopwatch::new()
+        }
+        Mode::Parallel => {
+            let _g = set_time_source(ts);
+            Stopwatch::default()
+        }
+    };
     let mut cx = SwCtx { ops, i: 0, fake, owned: (0..MAX_SLOTS).map(|_| None).collect(), threaded: mode == Mode::Threaded, groups: if mode == Mode::Parallel { parallel_groups(ops).into_iter().collect() } else { BTreeMap::new() } };
     let mut toks = vec![format!("-/{}", opt_str((&sw).close()))];
     while cx.i < ops.len() {
